@@ -123,6 +123,21 @@ theorem C03_report_backends_counterexample :
     -- `except` only, which a write-only event does not meet: it is never called and the loop spins
     reportOf .epoll 2 0 false true = 4 ∧ reportOf .select 2 0 false true = 2 := by decide
 
+/-- **exactly where the engines hand over different masks** (round 5; the trace acceptor's `cmp` judges these passes and
+reports the finding `backends-differ-hup-err`): for an interest `m`, plain readiness `a` and the kernel conditions `hup`, `err`
+the two engines report the same tbox mask iff nothing is watched, or - without an error - the descriptor is not hung up or
+read is watched (hang-up is `read` for both then), or - with an error - urgent data is pending for an except subscriber (so
+that `except` is in select's answer too), every watched write has room anyway, and read is watched exactly when hang-up or
+data make epoll say `read`.  In particular a quiet descriptor always agrees and a hung-up one agrees iff read is watched. -/
+def reportsAgree (m a : Nat) (hup err : Bool) : Bool :=
+  m == 0 ||
+  (if err then hasBit (m &&& a) 4 && (!hasBit m 2 || hasBit a 2) && (hasBit m 1 == (hup || hasBit (m &&& a) 1))
+   else !hup || hasBit m 1)
+
+theorem C03_report_backends_agree_iff :
+    ∀ m, m < 8 → ∀ a, a < 8 → ∀ hup err : Bool,
+      (reportOf .epoll m a hup err = reportOf .select m a hup err) ↔ reportsAgree m a hup err = true := by decide
+
 theorem actualMask_lt (s : State) (f : Nat) : actualMask s f < 8 := by
   unfold actualMask
   cases s.isOpen f <;> cases s.readable f <;> cases s.writable f <;> cases s.urgent f <;> decide
